@@ -193,8 +193,40 @@ def run(check):
                 check.under_contract(hf)
             else:
                 check.error('C14: no std::hash specialisation found for %s' % canon)
+    ld_tasks = long_double_tasks(check)
     check.extra['classes_seen'] = nclasses
     check.log('%d obligations' % len(jobs))
+    for t, ob in zip(ld_tasks, pmap(lambda t: t.run(), ld_tasks)):
+        check.add(ob)
+        if ob.status == 'failed':
+            rec = {'property': 'C14', 'obligation': ob.name, 'function': ob.function, 'source': ob.loc, 'verifier_output': ob.detail,
+                   'solver_model': {k: str(v) for k, v in (ob.cex or {}).items()} if isinstance(ob.cex, dict) else None, 'confirmed': False}
+            try:
+                f, op = t.meta
+                from ..cemit import round_to
+                third = round_to(Fraction(1, 3), 'long double')
+                third_d = round_to(Fraction(1, 3), 'double')
+                n = len(replay.leaf_types(low_ld(t), f.params[0][1][1]))
+                # two objects that differ only beyond double precision in their last component
+                a = [Fraction(1)] * (n - 1) + [third]
+                b = [Fraction(1)] * (n - 1) + [third_d]
+                from ..ieeeob import default_includes
+                for a, b in ((a, b), (b, a)):
+                    cpp = replay.NativeCall(low_ld(t), f).program({f.params[0][0]: a, f.params[1][0]: b}, includes=default_includes(low_ld(t), f))
+                    r, err = replay.build_and_run(cpp, os.path.join(check.work, 'replay'), 'r_' + re.sub(r'\W+', '_', ob.name)[:150])
+                    if err:
+                        rec['replay_error'] = err[:500]
+                        break
+                    got = replay.parse_out(r.stdout).get('RET', [None])[0]
+                    want = {'==': a == b, '!=': a != b, '<': a < b, '>': a > b, '<=': a <= b, '>=': a >= b}[op]
+                    rec['cpp'], rec['native_output'] = cpp, r.stdout
+                    if got is not None and bool(got) != want:
+                        rec['confirmed'], rec['mismatch'] = True, ['(a %s b) returned %s for two long double objects that differ in the last component beyond double precision; the exact comparison gives %s' % (op, bool(got), want)]
+                        rec['inputs'] = {'a': [str(x) for x in a], 'b': [str(x) for x in b]}
+                        break
+            except Exception as e:
+                rec['replay_error'] = '%s: %s' % (type(e).__name__, e)
+            check.violations.append((ob, write_replay(check, ob, rec), '' if rec['confirmed'] else 'no-failing-input-found'))
     obs = pmap(lambda j: j.run(), jobs)
     for j, ob in zip(jobs, obs):
         check.add(ob)
@@ -206,6 +238,65 @@ def run(check):
                 check.violations.append((ob, path, tail))
             else:
                 check.violations.append((ob,) + adjudicate_hash(check, j, ob))
+
+
+def low_ld(t):
+    return t.low
+
+
+def long_double_tasks(check):
+    """long double has no bit-precise model: each comparison operator of the long double instantiation is proved equal to the
+    lexicographic comparison / equality of the stored components over the reals (z3), with the precision audit (no argument may
+    be narrowed before it is compared)."""
+    from ..symex import SymEx, cmp, land, lor, lnot, TRUE, FALSE
+    from ..realob import SymCall, RealTask, leaves
+    T = 'long double'
+    Q = Quant(check, types=(T,), other_types=(), conv=False, hash_=False)
+    low = Q.low
+    tasks = []
+
+    def lex(a, b):
+        if not a:
+            return FALSE
+        return lor(cmp('<', a[0], b[0]), land(cmp('==', a[0], b[0]), lex(a[1:], b[1:])))
+
+    def alleq_t(a, b):
+        r = TRUE
+        for x, y in zip(a, b):
+            r = land(r, cmp('==', x, y))
+        return r
+
+    def spec_t(op, a, b):
+        return {'==': alleq_t(a, b), '!=': lnot(alleq_t(a, b)), '<': lex(a, b), '>': lex(b, a),
+                '<=': lor(lex(a, b), alleq_t(a, b)), '>=': lor(lex(b, a), alleq_t(a, b))}[op]
+    byrec = {}
+    for f in Q.free_functions(names=set(OPS)):
+        if len(f.params) == 2 and f.params[0][1][0] == 'ptr' and f.params[0][1][1][0] == 'rec' and f.params[1][1] == f.params[0][1]:
+            byrec.setdefault(f.params[0][1][1][1], {})[f.node['name']] = f
+    for cls in list(TENSORS) + Q.quantities:
+        canon = Q.canon(cls, T)
+        for oname, f in sorted(byrec.get(canon, {}).items()):
+            op = OPS[oname]
+            try:
+                S = SymEx(low)
+                sc = SymCall(low, f, symex=S)
+                a, b = leaves(sc.pre[f.params[0][0]]), leaves(sc.pre[f.params[1][0]])
+                got = S.tobool(sc.ret)
+                want = spec_t(op, a, b)
+                goal = lor(land(got, want), land(lnot(got), lnot(want)))
+            except Unsupported as e:
+                check.error('C14.ld.%s.%s: %s' % (cls, oname, e))
+                continue
+            opn = {'==': 'eq', '!=': 'ne', '<': 'lt', '>': 'gt', '<=': 'le', '>=': 'ge'}[op]
+            t = RealTask(check, 'C14.ld.%s.%s' % (cls, opn), S, goal, function=f.qualname, loc=Q.loc(f), timeout=60)
+            t.ob.text = 'long double instantiation: (a %s b) == the %s of the stored components over the reals; no argument is narrowed before it is compared' % (op, 'equality' if op in ('==', '!=') else 'lexicographic order')
+            t.meta = (f, op)
+            t.low = low
+            tasks.append(t)
+            check.under_contract(f)
+    if len(tasks) < 550:
+        check.error('must-fire: expected >= 550 long double comparison operators, found %d' % len(tasks))
+    return tasks
 
 
 def gen_ties(rnd, lt):
